@@ -12,10 +12,11 @@ TRUST = ("TLC 1.8.0 + CommunityModules; the TLA+ text under /verif/spec; the mec
 CHECKS = {
     "C01": dict(
         text="TLC enumerates every bag of respondents up to a bound (and random larger bags) "
-             "for 44 scenario shapes covering all row x column (x table) type pairings, "
-             "weighted/unweighted, numeric measures, numeric arrays; Spec derives the wire "
-             "tensors and the meaning of counts/means/sums/stddev/medians; every state is "
-             "replayed into the real Cube and each cell compared.",
+             "for 60 scenario shapes covering all row x column (x table) type pairings "
+             "(incl. derived MR items, LOGICAL, the typedef order list), weighted / unweighted / "
+             "fractional weights, numeric measures, numeric arrays, the response header; Spec "
+             "derives the wire tensors and the meaning of counts/means/sums/stddev/medians; "
+             "every state is replayed into the real Cube and each cell compared.",
         ref="DESIGN.md section 4 C01",
         technique="TLA+ survey model, TLC state enumeration, spec-behaviour replay into Cube"),
     "C02": dict(
@@ -37,7 +38,9 @@ CHECKS["C04"] = dict(
          "TLC-enumerated bags of respondents; Insertions.tla/Collate.tla resolve and place the "
          "subtotals, Slice.tla defines every block (body, inserted rows/columns, "
          "intersections) by one signed-indicator rule incl. the NaN and categorical-date "
-         "rules; replayed into Cube and compared cell by cell.",
+         "rules; every measure defined for a subtotal (counts, bases, proportions, errors, "
+         "residuals, scale statistics, population estimates, pairwise statistics) is replayed "
+         "into Cube and compared cell by cell.",
     ref="DESIGN.md section 4 C04",
     technique="TLA+ survey + insertion model, TLC enumeration, spec-behaviour replay into Cube")
 
